@@ -12,6 +12,7 @@ import shutil
 
 import hsreplay
 import hsreplay13
+import hsreplay13f
 import scen
 import vlib
 
@@ -98,6 +99,20 @@ def run(chk):
                 if r.get("diverge") and not r.get("law") and not extra:
                     chk.note("DIVERGENCE model/code (1.3 %s script %d): %s" % (variant, r["script"], r["diverge"][0]))
             chk.parts["replay13." + variant + tag] = {"scripts": summ["scripts"], "law_violations": nlaw, "diverged": summ.get("diverged", 0)}
+    # DTLS 1.3 with a server flight of several datagrams: selective acknowledgement / retransmission (spec/Handshake13F.tla)
+    hsreplay13f.model_check(chk)
+    hsreplay13f.vacuity(chk)
+    s13f = hsreplay13f.generate(chk, limit=25000 if chk.quick else 150000)
+    rows, summ = hsreplay13f.replay(chk, binary, s13f)
+    nlaw = 0
+    for r in rows:
+        for v in [x for x in r.get("law", []) if "C17" in x][:1]:
+            nlaw += 1
+            chk.violation({"kind": "timer-law-13f", "what": v,
+                           "script13f": {"scen": hsreplay13f.SCEN, "steps": s13f[r["script"]]["steps"], "qmax": hsreplay13f.QMAX, "bkcap": 3}})
+        if r.get("diverge") and not r.get("law"):
+            chk.note("DIVERGENCE model/code (1.3 fragmented flight script %d): %s" % (r["script"], r["diverge"][0]))
+    chk.parts["replay13f"] = {"scripts": summ["scripts"], "law_violations": nlaw, "diverged": summ.get("diverged", 0)}
     # (B ii) the timer function in-package
     hb = vlib.build("handshake")
     wd = vlib.scratch("c17")
@@ -144,6 +159,20 @@ def run(chk):
 def replay(chk, path):
     facts = json.load(open(path))
     binary = vlib.build("root")
+    if "script13f" in facts:
+        wd = vlib.scratch("c17r")
+        try:
+            inp, out = os.path.join(wd, "in"), os.path.join(wd, "out")
+            open(inp, "w").write(json.dumps(facts["script13f"]) + "\n")
+            vlib.run_test(binary, "TestVerifHs13FScripts", {"VERIF_IN": inp, "VERIF_OUT": out})
+            chk.evaluated(key="replay13f")
+            chk.evaluated(key="replay")
+            for r in vlib.read_ndjson(out)[:-1]:
+                if any("C17" in x for x in r.get("law", [])):
+                    chk.violation(dict(facts, replayed=True), replay=path)
+        finally:
+            shutil.rmtree(wd, ignore_errors=True)
+        return
     if "script13" in facts:
         wd = vlib.scratch("c17r")
         try:
